@@ -365,6 +365,47 @@ def nested_abort_ties(rng, count):
     return out
 
 
+def failed_nested_successors(rng, count):
+    """C03/C10/C01: a non-critical nested scheduler fails (a critical job inside raises,
+    or its own timeout fires) and jobs of the parent are waiting behind it"""
+    out = []
+    while len(out) < count:
+        deep = rng.random() < 0.35
+        inner = S([J(), J(0)] if rng.random() < 0.5 else [J(), J()])
+        nested = S([inner, J()]) if deep else inner
+        kids = [nested, J(0)]
+        if rng.random() < 0.5:
+            kids.append(J(1))
+        if rng.random() < 0.4:
+            kids.append(J())             # an independent (maybe forever) sibling
+        shape = tree(S(kids))
+        kind, parent, _ = shape
+        n = len(kind)
+        scheds = [i for i in range(n) if kind[i] == "sched"]
+        innermost = scheds[-1]
+        mem = [i for i in range(n) if parent[i] == innermost + 1]
+        dur = [rng.choice([0, 1, 2]) if kind[i] == "job" else 0 for i in range(n)]
+        outc, crit, tmo, forever = ["ok"] * n, [False] * n, [-1] * n, [False] * n
+        how = rng.choice(["critical", "timeout", "both"])
+        if how in ("critical", "both"):
+            outc[mem[0]], crit[mem[0]] = "exc", True
+        if how in ("timeout", "both"):
+            tmo[innermost] = rng.choice([0, 1])
+            dur[mem[-1]] = rng.choice([2, 3, -1])
+        for i in scheds[1:]:
+            crit[i] = False if i == innermost else rng.random() < 0.3
+        if len(kids) == 4 or (len(kids) == 3 and kids[-1] == ("J", [])):
+            last = [i for i in range(n) if parent[i] == 1][-1]
+            if rng.random() < 0.5:
+                forever[last], dur[last] = True, -1
+        sc = _mk(rng, shape, dur=dur, out=outc, crit=crit, tmo=tmo, forever=forever,
+                 win=[rng.choice([0, 0, 0, 2]) if kind[i] == "sched" else 0 for i in range(n)],
+                 pure=rng.random() < 0.3)
+        if admissible(sc["cfg"]):
+            out.append(sc)
+    return out
+
+
 def window_ties(rng, count):
     """C12/C07/C03: a full window, jobs queued behind it, running jobs that finish in
     the same instant but zero, one or two loop iterations apart, and successors
@@ -488,14 +529,14 @@ def _reqs_everything(shape, i):
 STRUCTURED = {
     "C01": [(joins, 0.25), (small_perms, 0.1), (nested_gap, 0.15)],
     "C02": [(tie_groups, 0.3), (simultaneous_failures, 0.15)],
-    "C03": [(window_failures, 0.3), (deadlines, 0.1), (window_ties, 0.15)],
+    "C03": [(window_failures, 0.3), (deadlines, 0.1), (window_ties, 0.15), (failed_nested_successors, 0.1)],
     "C04": [(critical_instants, 0.15), (deadlines, 0.2), (crit_chains, 0.15), (simultaneous_failures, 0.15)],
     "C05": [(critical_instants, 0.35), (simultaneous_failures, 0.15), (nested_abort_ties, 0.15)],
     "C06": [(window_failures, 0.3), (simultaneous_failures, 0.1)],
     "C07": [(window_failures, 0.25), (tie_groups, 0.1), (critical_instants, 0.1), (window_ties, 0.15)],
     "C08": [(deadlines, 0.45), (nested_abort_ties, 0.1)],
     "C09": [(forevers, 0.5)],
-    "C10": [(crit_chains, 0.3), (nested_gap, 0.2)],
+    "C10": [(crit_chains, 0.25), (nested_gap, 0.15), (failed_nested_successors, 0.15)],
     "C11": [(shutdown_grid, 0.3), (deadlines, 0.15), (nested_gap, 0.1), (nested_abort_ties, 0.1)],
     "C12": [(joins, 0.15), (small_perms, 0.15), (tie_groups, 0.15), (window_ties, 0.25)],
     "C13": [(shutdown_grid, 0.5)],
@@ -530,6 +571,7 @@ def scenarios(prop, count, seed):
         hrn["prep"] = rng.choice([0, 0, 0, 1, 2, 3, 4])
         hrn["emptymsg"] = rng.random() < 0.3
         hrn["rterr"] = rng.random() < 0.3
+        hrn["watch"] = rng.random() < 0.2       # schedulers are given a Watch (debug time display)
         # now and then the caller cancels the whole run from outside
         if rng.random() < {"C11": 0.15, "C13": 0.08, "C05": 0.05}.get(prop, 0.03):
             sc["cfg"]["ucancel"] = rng.choice([0, 1, 1, 2, 3])
